@@ -227,6 +227,12 @@ where
     }
 }
 
+/// Arrange for the socket to send RST (not FIN) when it is dropped.
+pub fn rst_on_drop(stream: &TcpStream) {
+    let r = socket2::SockRef::from(stream);
+    let _ = r.set_linger(Some(std::time::Duration::ZERO));
+}
+
 pub async fn listen() -> io::Result<(TcpListener, SocketAddr)> {
     let l = TcpListener::bind("127.0.0.1:0").await?;
     let a = l.local_addr()?;
